@@ -259,3 +259,67 @@ Theorem C14_reader_builds_kernel_name_and_concentration : forall ct cd cs cc cm 
     r_seq r' = r_seq r /\ r_rate r' = r_rate r /\ RGood ct cd cs cc cm cr r' /\ RExt r r'.
 Proof. exact reader_builds_kernel_conc. Qed.
 Print Assumptions C14_reader_builds_kernel_name_and_concentration.
+
+(* ---- kernel-notation complexes: sequence and structure ---- *)
+From DSD Require Import Model.Kernel Proofs.ReaderKernel.
+
+(* one kernel statement whose complex name is not yet taken (`names` / `sst` = what
+   resolve_kernel_loops gives for the pattern), read in any good session.  The complex filed under
+   the name is new; its sequence and structure are the expansion `out` of (names, sst): `+` stays,
+   a domain name becomes the domain singleton of that name, a composite-domain (strand) name
+   becomes the strand's elements, the complement of a composite-domain name becomes the
+   complements of the elements in reverse order, and the structure character of a name is repeated
+   for every element it expands to (ExpnH / CellForH).  Up to the state ra in which the names were
+   resolved only domain objects were created, afterwards only this complex. *)
+Theorem C14_reader_builds_kernel_complex : forall ct cd cs cc cm cr,
+  cfg_okb ct cd cs cc cm cr = true ->
+  forall line nm names sst cc0 acc r r' acc',
+  decode line = Ok (SKer nm names sst cc0) -> Forall kname_ok names -> length names = length sst ->
+  nonempty nm = true -> RGood ct cd cs cc cm cr r ->
+  nlookup nm (cs_names (cget (r_st r) cc)) = None ->
+  read_one ct (g cd cs cc cm cr) None (TList line) acc r = (r', Ok acc') ->
+  exists i ob out t ra,
+    hget (heap (r_st r')) i = Some ob /\ o_live ob = true /\ o_cls ob = cc /\ o_name ob = nm /\
+    acc' = with_complexes acc (dset nm i (po_complexes acc)) /\
+    ExpnH cd cs (heap (r_st r')) (combine names sst) out /\
+    o_data ob = DCplx (map (cell_elem (r_st r')) (map fst out)) (map snd out) t /\
+    RGood ct cd cs cc cm cr ra /\ Expn cd cs ra (combine names sst) out /\
+    HExt dom_data (heap (r_st r)) (heap (r_st ra)) /\ HExt cplx_data (heap (r_st ra)) (heap (r_st r')) /\
+    RGood ct cd cs cc cm cr r' /\ RExt r r'.
+Proof. exact reader_builds_kernel_complex. Qed.
+Print Assumptions C14_reader_builds_kernel_complex.
+
+(* over declared domains only (no strand carries one of the names or its complement): exactly the
+   sequence and the structure that resolve_kernel_loops gives for the pattern *)
+Theorem C14_reader_builds_kernel_complex_plain : forall ct cd cs cc cm cr,
+  cfg_okb ct cd cs cc cm cr = true ->
+  forall line nm names sst cc0 acc r r' acc',
+  decode line = Ok (SKer nm names sst cc0) -> Forall kname_ok names -> length names = length sst ->
+  nonempty nm = true -> RGood ct cd cs cc cm cr r ->
+  nlookup nm (cs_names (cget (r_st r) cc)) = None -> Forall (no_strand cs r) names ->
+  read_one ct (g cd cs cc cm cr) None (TList line) acc r = (r', Ok acc') ->
+  exists i ob es t,
+    hget (heap (r_st r')) i = Some ob /\ o_live ob = true /\ o_cls ob = cc /\ o_name ob = nm /\
+    acc' = with_complexes acc (dset nm i (po_complexes acc)) /\
+    o_data ob = DCplx es sst t /\ Forall2 (PlainElem cd (heap (r_st r'))) names es /\ map fst es = names /\
+    RGood ct cd cs cc cm cr r' /\ RExt r r'.
+Proof. exact reader_builds_kernel_complex_plain. Qed.
+Print Assumptions C14_reader_builds_kernel_complex_plain.
+
+(* with C12: the line `name = kernel_string(t)` of a kernel tree t files a complex whose sequence
+   and structure are the flattening of t *)
+Theorem C14_reader_builds_kernel_tree : forall ct cd cs cc cm cr,
+  cfg_okb ct cd cs cc cm cr = true ->
+  forall nm t acc r r' acc',
+  names_ok t = true -> Forall kname_ok (fst (flatten t)) -> nonempty nm = true ->
+  RGood ct cd cs cc cm cr r ->
+  nlookup nm (cs_names (cget (r_st r) cc)) = None -> Forall (no_strand cs r) (fst (flatten t)) ->
+  read_one ct (g cd cs cc cm cr) None (TList (kernel_line nm t)) acc r = (r', Ok acc') ->
+  exists i ob es tu,
+    hget (heap (r_st r')) i = Some ob /\ o_live ob = true /\ o_cls ob = cc /\ o_name ob = nm /\
+    acc' = with_complexes acc (dset nm i (po_complexes acc)) /\
+    o_data ob = DCplx es (snd (flatten t)) tu /\ map fst es = fst (flatten t) /\
+    Forall2 (PlainElem cd (heap (r_st r'))) (fst (flatten t)) es /\
+    RGood ct cd cs cc cm cr r' /\ RExt r r'.
+Proof. exact reader_builds_kernel_tree. Qed.
+Print Assumptions C14_reader_builds_kernel_tree.
